@@ -35,6 +35,16 @@ theorem gen_structure :
     Gen.Session.deplexContinuesAfterRecvError = true ∧ Gen.Session.deplexDefersConnClose = true ∧
     Gen.Session.timeoutCloses = true ∧ Gen.Session.acceptNilIsBroken = true := by decide
 
+/-- the receive pipes hold a writer back (inside the stream's `recvM`) only beyond 2 GiB − 1 of unread data: below
+that the hand-over of a frame to its buffer returns, which is what the teardown theorems and the lock-order theorem
+assume of `sync.Cond.Wait` in `streamBufferedPipe.Write` / `datagramBufferedPipe.Write`.  (A lower limit makes the
+parked receive loop reachable: seeded change `C12-3`, scenario `c12big.go`.) -/
+theorem gen_pipe_limit (b : Nat) (h : b < 2^31) :
+    Gen.Session.pipeWriteProceeds b = true ∧ Gen.Session.dgPipeWriteProceeds b = true ∧
+    Gen.Session.recvBufferSizeLimit = 2^31 - 1 := by
+  unfold Gen.Session.pipeWriteProceeds Gen.Session.dgPipeWriteProceeds Gen.Session.recvBufferSizeLimit
+  refine ⟨?_, ?_, by decide⟩ <;> simp <;> omega
+
 theorem gen_timeout (c : Int) (b : Bool) : Gen.Session.timeoutCond c b = true ↔ (c = 0 ∧ b = false) := by
   unfold Gen.Session.timeoutCond
   cases b <;> simp
